@@ -210,13 +210,7 @@ impl Session {
             self.emit(sink, req.to_string(), resp.clone());
             return resp;
         }
-        let resp = self.exec_inner(sink, req);
-        let first = req.split(' ').next().unwrap_or("");
-        if !matches!(first, "dump" | "inv" | "removed" | "map_read" | "reset" | "cons" | "new") && self.detect_cycle() {
-            self.cyclic = true;
-            sink.fail("C04", &format!("C04:{}:parent-links-form-a-cycle", first), &format!("after {} (answer {}): walking up the parent links from a live node never reaches a root", req, resp), &self.history);
-        }
-        resp
+        self.exec_inner(sink, req)
     }
 
     fn exec_inner(&mut self, sink: &mut Sink, req: &str) -> String {
@@ -369,6 +363,13 @@ impl Session {
                 None => panic!("unknown request {}", req),
             },
         };
+        // nothing below may walk a store whose parent links form a cycle
+        if !matches!(w[0], "dump" | "inv" | "removed" | "map_read" | "reset" | "cons" | "new") && self.detect_cycle() {
+            self.cyclic = true;
+            sink.fail("C04", &format!("C04:{}:parent-links-form-a-cycle", w[0]), &format!("after {} (answer {}): walking up the parent links from a live node never reaches a root", req, resp), &self.history);
+            self.emit(sink, req.to_string(), resp.clone());
+            return resp;
+        }
         self.relabel(returned);
         let resp = if resp == "NEW" {
             format!("ok {}", self.label[&returned.unwrap()])
